@@ -189,6 +189,174 @@ def os_layer_case(rng):
     return {"mounts": mounts, "cwd": cwd, "env": env, "src": "\n".join(lines)}
 
 
+# ------------------------------------------------------------------ containers with order-sensitive contents through every consumer
+
+DENIED_MODULES = ("exec", "http", "net", "ssh", "sql", "pgx", "aws", "redis", "kubernetes", "vault", "slack", "github", "playwright",
+                  "fetch", "nslookup", "rand", "time", "uuid", "sched")
+# excluded by the property (goroutines / channels) or ending the evaluation; everything else the configuration offers is called
+NOT_CALLED = ("spawn", "chan", "make", "close", "os.exit", "exit", "sleep", "try", "call")
+
+# members whose SUM depends on the order of addition (float addition is not associative), whose first element is visibly
+# another one in every order, or whose kinds differ - so any consumer that takes the members in hash-map order shows it
+BIG = "1" + "0" * 100 + ".0"
+SET_POOLS = [
+    ["10000000000000000.0", "1.0", "-10000000000000000.0", "3.0", "0.1", "0.2", "0.3", BIG, "-" + BIG, "0.7", "0.000000001"],
+    ["9007199254740993", "-9007199254740992", "1", "0.5", "7", "10000000000000000.0", "-10000000000000000.0", "0.1", "3"],
+    ['"b"', '"a"', "true", "nil", "1.5", "byte(3)", "2", '"zz"', "false", "byte(200)", '""'],
+    ['"b"', '"a"', '"c"', '"y"', '"x"', '"é"', '"A"', '"10"', '"9"'],
+    ["0.1", "0.2", "0.3", "0.4", "0.6", "0.7", "1000000000000000.0", "-1000000000000000.0", "0.001", "123456.789"],
+    ["3", "1", "2", "10", "-5", "100", "7"],
+]
+VERBS = ["%v", "%s", "%d", "%q", "%+v", "%#v", "%T", "%x", "%5v|%v", "%f", "%t"]
+CODECS = ["json", "base64", "base32", "hex", "gzip", "csv", "urlquery", "nosuch"]
+SCALARS = ["1", "2", '"a"', '"json"', '","', "2.5", "true", "nil", "func(x) { return x }", "func(a, b) { return a }", "0", '"%v"']
+
+
+def consumer_program(rng, callables, accepting=(), arity=None):
+    """Sets and maps with order-sensitive contents handed to every function the configuration offers (alone, nested in a list /
+    a map, next to a scalar, as second argument), to every formatting verb of sprintf / fmt.sprintf / printf / error / errorf, to
+    every codec, to string templates, loops that accumulate, and finally returned to the host (Interface / MarshalJSON)."""
+    r = rng
+    lines = ["func q(f) { return try(f, func(e) { return \"E:\" + string(e) }) }", "out := []"]
+    names = []
+
+    def members(lo=2):
+        pool = r.choice(SET_POOLS)
+        n = lo + r.below(5)
+        ms = []
+        for _ in range(n):
+            m = r.choice(pool)
+            if r.chance(1, 8):
+                m = r.choice(r.choice(SET_POOLS))
+            ms.append(m)
+        return ms
+    nsets = 1 + r.below(3)
+    for i in range(nsets):
+        lines.append("s%d := {%s}" % (i, ", ".join(members())))
+        names.append("s%d" % i)
+    for i in range(1 + r.below(2)):
+        ms = members()
+        keys = ['"%s"' % k for k in ["b", "a", "c", "zz", "k", "é", "10", "9"]]
+        vals = ms + [r.choice(names), "[%s]" % r.choice(names)]
+        lines.append("m%d := {%s}" % (i, ", ".join("%s: %s" % (r.choice(keys), r.choice(vals)) for _ in range(2 + r.below(4)))))
+        names.append("m%d" % i)
+    if r.chance(1, 2):
+        lines.append("fm := {%s}" % ", ".join("\"%s\": %s" % (r.choice(["k", "a", "b", "zz", "é", "10"]) + str(i), m) for i, m in enumerate(members())))
+        names.append("fm")
+
+    def cont():
+        x = r.choice(names)
+        k = r.below(10)
+        if k == 0:
+            return "[%s]" % x
+        if k == 1:
+            return "{\"tags\": %s, \"n\": 1}" % x
+        if k == 2:
+            return "[1, %s, %s]" % (x, r.choice(names))
+        if k == 3:
+            return "list(%s)" % x
+        return x
+    for _ in range(5 + r.below(8)):
+        k = r.below(20)
+        x = cont()
+        if k < 8:
+            # half of the calls go to the functions that were seen to ACCEPT a container (measured on the running configuration)
+            f = r.choice(accepting) if accepting and r.chance(1, 2) else r.choice(callables)
+            shape = r.below(6)
+            # a call with a number of arguments the function does not take raises an args error, which try() does not catch: the
+            # evaluation would end there.  Use a number of arguments the function was seen to take
+            ar = (arity or {}).get(f) or {1, 2}
+            if 1 not in ar and shape < 3:
+                shape = 3 + r.below(3)
+            if 2 not in ar and shape >= 3:
+                shape = 0 if 1 in ar else 6
+            if shape == 6:
+                call = "%s(%s, %s, %s)" % (f, x, r.choice(SCALARS), r.choice(SCALARS))
+            elif shape < 3:
+                call = "%s(%s)" % (f, x)
+            elif shape == 3:
+                call = "%s(%s, %s)" % (f, x, r.choice(SCALARS))
+            elif shape == 4:
+                call = "%s(%s, %s)" % (f, r.choice(SCALARS), x)
+            else:
+                call = "%s(%s, %s)" % (f, x, cont())
+            lines.append("out.append(q(func() { return %s }))" % call)
+        elif k < 11:
+            f = r.choice(["sprintf", "fmt.sprintf", "fmt.printf", "printf", "error", "errorf", "fmt.errorf", "errors.new", "fmt.println", "print"])
+            if f in ("fmt.println", "print"):
+                call = "%s(%s, %s)" % (f, x, cont())
+            elif r.chance(1, 2):
+                call = "%s(%s, %s)" % (f, json.dumps(r.choice(VERBS).split("|")[0]), x)
+            else:
+                call = "%s(%s, %s, %s)" % (f, json.dumps("a " + r.choice(VERBS).split("|")[0] + " b " + r.choice(VERBS).split("|")[0]), x, cont())
+            lines.append("out.append(q(func() { return %s }))" % call)
+        elif k < 13:
+            lines.append("out.append(q(func() { return encode(%s, %s) }))" % (x, json.dumps(r.choice(CODECS))))
+        elif k == 13:
+            lines.append("out.append(q(func() { return decode(encode(%s, %s), %s) }))" % (x, json.dumps(r.choice(CODECS)), json.dumps(r.choice(CODECS))))
+        elif k == 14:
+            n = r.choice(names)
+            lines.append("out.append(q(func() { return 'a {%s} b {%s}' }))" % (n, r.choice(names)))
+        elif k == 15:
+            n = r.choice(names)
+            lines.append("out.append(q(func() { acc := 0.0; first := nil; for i, x := range list(%s) { if i == 0 { first = x }; acc += float(x) }; return [acc, first] }))" % n)
+        elif k == 16:
+            n = r.choice(names)
+            lines.append("out.append(q(func() { acc := 0.0; names := []; for x := range %s { names.append(x); acc += float(x) }; return [acc, names] }))" % n)
+        elif k == 17:
+            lines.append("out.append(q(func() { return string(%s) + \"|\" + string(type(%s)) }))" % (x, x))
+        elif k == 18:
+            n = r.choice(names)
+            lines.append("out.append(q(func() { return %s.%s }))" % (
+                n, r.choice(["union(%s)" % r.choice(names), "difference({1})", "keys()", "values()", "items()", "has(1)", "size()", "clear()", "pop(\"a\", 0)"])))
+        else:
+            lines.append("out.append(q(func() { return json.marshal(%s) }))" % x)
+    lines.append(r.choice(["[out, %s]" % ", ".join(names), r.choice(names), "out", "{\"r\": %s, \"out\": out}" % r.choice(names)]))
+    return "\n".join(lines)
+
+
+def history_case(rng, attrs, arity=None):
+    """Several evaluations with DIFFERENT options in one process: dotted denies / overrides on attributes of default modules,
+    denies / overrides of plain globals, extra globals.  Every step's script reads a small pool of attributes (type, printed
+    form, a call), so a step shows what an earlier step's options did to the modules it is given."""
+    r = rng
+    pool = []
+    mod = r.choice(sorted({a.split(".")[0] for a in attrs if "." in a}))
+    same = [a for a in attrs if a.startswith(mod + ".")]
+    for _ in range(2 + r.below(3)):
+        pool.append(r.choice(same))
+    for _ in range(1 + r.below(3)):
+        pool.append(r.choice(attrs))
+    pool = sorted(set(pool))
+    ARGS1 = ["16", "\"a,b\"", "[3, 1, 2]", "2.5", "\"A\"", "\"a\""]
+
+    def script():
+        ps = []
+        pr = []
+        for a in pool:
+            if r.chance(3, 4):
+                # what the attribute IS goes to stdout first (an args error of a call below ends the evaluation; stdout is kept)
+                pr.append("print(q(func() { return string(%s) + \"|\" + string(type(%s)) }))" % (a, a))
+                ar = sorted((arity or {}).get(a) or {1})
+                ps.append("q(func() { return %s(%s) })" % (a, ", ".join(r.choice(ARGS1) for _ in range(r.choice(ar)))))
+        ps.append("q(func() { return g1 })")
+        return "func q(f) { return try(f, func(e) { return \"E:\" + string(e) }) }\n%s\n[%s]" % ("\n".join(pr), ",\n ".join(ps))
+    steps = []
+    for _ in range(2 + r.below(4)):
+        st = {"src": script(), "deny": [], "override": {}, "globals": {"g1": 1}}
+        k = r.below(8)
+        if k < 3:
+            st["deny"] = [r.choice(pool) for _ in range(1 + r.below(2))]
+        elif k < 5:
+            st["override"] = {r.choice(pool): r.choice([3, "ov", [1, 2], 0])}
+        elif k == 5:
+            st["deny"] = [r.choice(pool).split(".")[0]]
+        elif k == 6:
+            st["globals"] = {"g1": r.choice([7, "g"])}
+        steps.append(st)
+    return {"steps": steps}
+
+
 def run(res):
     tier = res.tier
     nprog = 1200 if tier == "quick" else 25000
@@ -197,23 +365,44 @@ def run(res):
     nrep = 3 if tier == "quick" else 5
     cov = res.coverage
 
-    from checks import c12
+    from checks import c12, c11
     c12.sync_xt_mod()
     gen_exe, err = c12.build_xt("c05gen")
     if not gen_exe:
         res.violation({"property": PROP, "kind": "harness-build-failed", "stage": "go build harness_xt c05gen", "log": (err or "")[-3000:]}, nofail=True, tag="build")
         return
     rc, o, e = C.run([gen_exe, c12.XT], env=dict(C.GOENV), timeout=600)
+    translator_log = None
     if rc != 0 or "gen_map_range_sites" not in o:
-        res.violation({"property": PROP, "kind": "translator-failed", "stage": "c05gen", "log": (o + e)[-2500:]}, nofail=True, tag="translate")
-        return
-    C.write_if_changed(os.path.join(C.COQ, "gen", "GenMapRangeSites.v"), o)
-    nsites = o.count('";') + 1
+        # the tables could not be produced (the usual reason: the source tree does not type-check).  That is a broken obligation,
+        # not the end of the check: if the harness still builds, the differential stages below look for a concrete input
+        translator_log = (o + e)[-2500:]
+        nsites = 0
+    else:
+        C.write_if_changed(os.path.join(C.COQ, "gen", "GenMapRangeSites.v"), o)
+        nsites = o.count('";') + 1
     exe, err = C.go_build("c05obs")
-    if not exe:
-        res.violation({"property": PROP, "kind": "harness-build-failed", "stage": "go build c05obs", "log": err[-3000:]}, nofail=True, tag="build")
+    lst, err2 = C.go_build("c05list", overlay=c11.make_overlay()) if exe else (None, "")
+    if not exe or not lst:
+        v = {"property": PROP, "kind": "harness-build-failed", "stage": "go build c05obs / c05list", "log": ((err or "") + (err2 or ""))[-3000:]}
+        if translator_log:
+            v["translator_log"] = translator_log
+            v["note"] = "c05gen could not load the source tree either: the tree under test does not compile, so there is nothing to evaluate"
+        res.violation(v, nofail=True, tag="build")
         return
-    proved = C.prove(res, PROP)
+    rc, o, e = C.run([lst], timeout=120)
+    reach = [l.split(" ", 1) for l in o.splitlines() if " " in l]
+    reach = [(k, n) for k, n in reach if n.split(".")[0] not in DENIED_MODULES]
+    callables = [n for k, n in reach if k == "builtin" and n not in NOT_CALLED]
+    attrs = [n for k, n in reach if k != "module" and n not in NOT_CALLED]
+    if rc != 0 or len(callables) < 50:
+        res.violation({"property": PROP, "kind": "harness-build-failed", "stage": "c05list", "log": (o + e)[-2000:]}, nofail=True, tag="build")
+        return
+    if translator_log:
+        proved = False
+        res.broken = {"log_tail": "translator c05gen failed (tables of map-range sites not produced): " + translator_log, "errors": []}
+    else:
+        proved = C.prove(res, PROP)
 
     rng = C.Rng(res.seed)
     srcs = []
@@ -237,6 +426,27 @@ def run(res):
         c = os_layer_case(orng)
         oscases[len(srcs)] = c
         srcs.append(c["src"])
+    # containers with order-sensitive contents through every consumer the configuration offers
+    crng = C.Rng(res.seed ^ 0x636f6e73756d65)
+    ncons = 3000 if tier == "quick" else 40000
+    # which of the functions take a container at all (a set, a list, a map as only argument without raising)?  Measured, not listed
+    probes = [(f, x) for f in callables for x in ("{2, 1}", "[2, 1]", "{\"b\": 2, \"a\": 1}", "{\"b\", \"a\"}")]
+    pin = ("\n".join(("try(func() { %s(%s); return \"Y\" }, \"N\")" % fx).encode().hex() for fx in probes) + "\n").encode()
+    pout = subprocess.run([exe, "1"], input=pin, stdout=subprocess.PIPE).stdout.decode("utf-8", "replace").splitlines()
+    yes = "OK \"Y\"".encode().hex()
+    accepting = sorted({fx[0] for fx, l in zip(probes, pout) if len(l.split(" ")) > 6 and l.split(" ")[6] == yes})
+    # and with how many arguments can each be called (an args error is not caught by try and ends the evaluation)?
+    aprobes = [(f, k) for f in callables for k in (1, 2, 3)]
+    pin = ("\n".join(("%s(%s)" % (f, ", ".join(["1"] * k))).encode().hex() for f, k in aprobes) + "\n").encode()
+    pout = subprocess.run([exe, "1"], input=pin, stdout=subprocess.PIPE).stdout.decode("utf-8", "replace").splitlines()
+    arity = {}
+    argserr = "ERR args error".encode().hex()
+    for (f, k), l in zip(aprobes, pout):
+        fl = l.split(" ")
+        if len(fl) > 6 and fl[0] == "D" and not fl[6].startswith(argserr):
+            arity.setdefault(f, set()).add(k)
+    for i in range(ncons):
+        srcs.append(consumer_program(crng, callables, accepting, arity))
     inp = ("\n".join(("O " + json.dumps(oscases[k]).encode("utf-8").hex()) if k in oscases else s.encode("utf-8", "surrogateescape").hex()
                       for k, s in enumerate(srcs)) + "\n").encode()
 
@@ -275,7 +485,13 @@ def run(res):
             if any(x[3] != "same_compile=1" for x in f):
                 why = "compiling the same source several times in one process gave different bytes / errors"
             elif any(x[4] != "same_eval=1" for x in f):
-                why = "evaluating the same source several times in fresh VMs gave different results / output"
+                why = "evaluating the same source several times in fresh VMs of one process gave different results / output / host views"
+                bad = [x for x in f if x[4] != "same_eval=1" and len(x) > 8]
+                if bad:
+                    try:
+                        why += ": " + bytes.fromhex(bad[0][8]).decode("utf-8", "replace")
+                    except ValueError:
+                        pass
             elif any(len(x) < 6 or x[5] != "same_reload=1" for x in f):
                 bad = [x for x in f if len(x) >= 6 and x[5] != "same_reload=1"]
                 detail = ""
@@ -298,6 +514,65 @@ def run(res):
                              "filesystem, so a result `TAG:path` names the mount that served the access)")
             oracle.append(v)
 
+    # option histories: several evaluations with different options in one process; every step must give what the same step
+    # gives alone in a fresh process
+    hrng = C.Rng(res.seed ^ 0x68697374)
+    nhist = 150 if tier == "quick" else 4000
+    hists = [history_case(hrng, attrs, arity) for _ in range(nhist)]
+
+    def hrun(steps):
+        line = (json.dumps({"steps": steps}).encode("utf-8").hex() + "\n").encode()
+        for attempt in range(2):
+            p = subprocess.run([exe, "hist"], input=line, stdout=subprocess.PIPE)
+            f = p.stdout.decode("utf-8", "replace").split()
+            if len(f) == len(steps) + 1 and f[0] == "H":
+                try:
+                    return [bytes.fromhex(x).decode("utf-8", "replace") for x in f[1:]]
+                except ValueError:
+                    pass
+        return None
+
+    def hjudge(h):
+        steps = h["steps"]
+        whole = hrun(steps)
+        if whole is None:
+            return ("noanswer", None)
+        if any(o.startswith("TIMEOUT") for o in whole):
+            return ("timeout", None)
+        for i, st in enumerate(steps):
+            alone = hrun([st])
+            if alone is None:
+                return ("noanswer", None)
+            if alone[0].startswith("TIMEOUT"):
+                return ("timeout", None)
+            if alone[0] != whole[i]:
+                # confirm: the step alone, once more, gives the same as before (otherwise the step itself is not deterministic
+                # - also a violation, but another one)
+                again = hrun([st])
+                return ("diff", {"step": i, "in_history": whole[i].replace("\x00", " | ")[:1500], "alone": alone[0].replace("\x00", " | ")[:1500],
+                                 "alone_again_same": again is not None and again[0] == alone[0]})
+        return ("ok", None)
+    with ThreadPoolExecutor(max_workers=C.NCPU) as ex:
+        hres = list(ex.map(hjudge, hists))
+    hist_ok = 0
+    for h, (verdict, d) in zip(hists, hres):
+        if verdict == "ok":
+            hist_ok += 1
+            evals += 2 * len(h["steps"])
+            distinct.add(json.dumps(h, sort_keys=True))
+        elif verdict == "timeout":
+            timeouts += 1
+        elif verdict == "noanswer":
+            oracle.append({"kind": "oracle-violation", "history": h["steps"], "why": "c05obs hist gave no answer for this history (twice)"})
+        else:
+            st = h["steps"][d["step"]]
+            oracle.append({"kind": "oracle-violation", "history": h["steps"], "failing_step": d["step"], "source": st["src"],
+                           "options_of_failing_step": {k: st[k] for k in ("deny", "override", "globals")},
+                           "in_history": d["in_history"], "alone_in_fresh_process": d["alone"], "alone_again_same": d["alone_again_same"],
+                           "why": "evaluating step %d of this history (same source, same options, fresh Config / compiler / VM) after the earlier steps "
+                                  "of the history - which had OTHER options (dotted denies / overrides on default modules, extra globals) - gives another result "
+                                  "than the same step alone in a fresh process (observations: result | stdout | host view)" % d["step"]})
+
     cov["evaluations"] = evals
     cov["distinct_nontrivial"] = len(distinct)
     cov["rule"] = ("programs of the C01 generator and map/set-centred programs over the default builtins (printing, iteration, keys/values/items, "
@@ -308,8 +583,18 @@ def run(res):
                    "(integers around 2^53, 2^62, 2^63, floats with long digit strings / -0.0 / denormals, strings of every character class; as literals, in containers, "
                    "as parameter defaults); %d OS-layer cases (VirtualOS with 3-7 mount points nested in one another plus look-alike siblings, tagged in-memory "
                    "filesystems, reads / stats / listings / writes / renames / removes by absolute and relative paths, environment). %d map-range sites of the current source are "
-                   "classified, and the text of every function that holds one is the text that was reviewed (digest). Non-trivial = distinct programs that compile." % (nrep, nproc, nconst, nos, nsites))
-    cov["samples"] = [{"source": srcs[-1], "digests": runs[0][len(srcs) - 1]}]
+                   "classified, and the text of every function that holds one is the text that was reviewed (digest). %d consumer programs: sets / maps with order-sensitive contents "
+                   "(floats whose sum depends on the order, mixed kinds) handed to each of the %d builtins and module functions the configuration offers (listed from the "
+                   "running configuration), to every formatting verb, codec, template and accumulating loop, and returned to the host; the observation of every evaluation "
+                   "includes the host's view of the result (Interface() with slices in order, json.Marshal, String()). %d option histories: 2-5 evaluations with different "
+                   "options (dotted denies / overrides on default modules, denied modules, extra globals) in one process, every step compared with the same step alone in a "
+                   "fresh process. Non-trivial = distinct programs that compile / histories." % (nrep, nproc, nconst, nos, nsites, ncons, len(callables), nhist))
+    cov["samples"] = [{"source": srcs[-1], "digests": runs[0][len(srcs) - 1]}, {"history": hists[0]["steps"]}]
+    cov["consumer_programs"] = ncons
+    cov["callables_reached"] = len(callables)
+    cov["callables_accepting_a_container"] = accepting
+    cov["option_histories"] = nhist
+    cov["option_histories_equal_to_alone"] = hist_ok
     cov["map_range_sites"] = nsites
     cov["skipped_not_parsing"] = skipped
     cov["skipped_time_budget"] = timeouts
